@@ -105,6 +105,29 @@ def int_variable(code, access, spelling, doc_type):
     sx.reach("signed" if signed else "unsigned")
 
 
+def multi_variable(codes, spelling):
+    """several integer variables of different types in one file (sections must not influence each other)"""
+    d = _base_doc()
+    entries = []
+    for k, code in enumerate(codes):
+        name, w, signed = S301.INT_TYPES[code]
+        lo, hi = S301.int_range(code)
+        v = sx.fresh_int("v%d" % k, lo, hi)
+        low = sx.fresh_int("l%d" % k, lo, hi)
+        e = Entry("Var %d %s" % (k, name), 0x2000 + 16 * k + code, 0, code, "rw", default=v, low=low)
+        e.default_text = num(v) if signed or spelling == "dec" else num(v, "hex")
+        e.low_text = num(_twos(low, w), "hex") if spelling == "hex" else num(low)
+        entries.append(e)
+        d.variable(e)
+    od = _import(d.text())
+    for e in entries:
+        sx.prove(e.index in od, "object missing", "C08/multi/missing")
+        if e.index in od:
+            _check_var(od[e.index], e, "C08/multi")
+    sx.prove(len(od) == len(entries), "number of objects", "C08/multi/count")
+    sx.reach("multi")
+
+
 def nodeid_literal(form, literal):
     """$NODEID forms with concrete digit strings (the token abstraction hides character-level slips)"""
     x = int(literal, 0)
@@ -292,6 +315,11 @@ def jobs(tier):
         for n in ((1, 3) if q else (1, 2, 3, 8, 20)):
             out.append(dict(func="compact", params=dict(with_names=wn, n=n)))
     out.append(dict(func="device_info", params={}))
+    combos = [[0x02, 0x07], [0x10, 0x05, 0x15]] if q else [[0x02, 0x07], [0x10, 0x05, 0x15], [0x12, 0x13, 0x14, 0x1B],
+                                                          [0x03, 0x04, 0x06, 0x16, 0x18], [0x19, 0x1A, 0x02, 0x10]]
+    for codes in combos:
+        for sp in ("dec", "hex"):
+            out.append(dict(func="multi_variable", params=dict(codes=codes, spelling=sp), weight=2 ** len(codes)))
     return out
 
 
@@ -308,14 +336,15 @@ META = dict(
     bounds=dict(quick="16 integer types x {decimal, hex} spelling x 2 (access type, document type) pairs; $NODEID+x / "
                       "x+$NODEID with/without spaces x node id from argument / file / both / absent; record, array, "
                       "missing ObjectType, DOMAIN, strings, REAL, factor/unit/description, sub/Sub spelling; compact arrays "
-                      "with and without name list (1, 3 entries); device info, dummy usage, comments",
-                thorough="5 access spellings per type; compact arrays up to 20 entries"),
+                      "with and without name list (1, 3 entries); device info, dummy usage, comments; files with 2-3 symbolic "
+                      "variables of different types",
+                thorough="5 access spellings per type; compact arrays up to 20 entries; files with up to 5 symbolic variables"),
     outside_bounds=["arbitrary well-formed text (structure is enumerated)", "REAL defaults and Factor as symbolic values",
                     "Baudrate / DummyNNNN values as symbolic (parsed by configparser.getint)",
                     "hex spelling of negative defaults (not defined by the property)"],
     assumptions=["writer follows CiA 306 section/keyword layout"],
     stubs=["int()/hex()/format() with number tokens", "dict displays -> SymDict", "logging"],
     required_reach=["int-dec", "int-hex", "signed", "unsigned", "nodeid-arg", "nodeid-file", "nodeid-both",
-                    "nodeid-none", "nodeid-literal", "structure", "compact", "device-info"],
+                    "nodeid-none", "nodeid-literal", "structure", "compact", "device-info", "multi"],
     limits=dict(quick=dict(), thorough=dict()),
 )
